@@ -61,6 +61,29 @@ class Verdict:
         return {"ok": self.ok, "errors": self.errors[:6], "codes": self.codes[:6], "from_derive": self.from_derive}
 
 
+_dmsgs = {}
+
+
+def derive_messages():
+    """Diagnostic texts the derive can emit, discovered from /repo's sources at run time (used only to
+    classify *why* a case was rejected in the evidence; wording is never asserted)."""
+    if "m" in _dmsgs:
+        return _dmsgs["m"]
+    import re
+    out = set()
+    for root, _d, files in os.walk(os.path.join(REPO, "src")):
+        for fn in files:
+            if not fn.endswith(".rs"):
+                continue
+            txt = open(os.path.join(root, fn)).read()
+            for m in re.finditer(r'(?:write!\(\s*f\s*,|abort!\([^;]*?,|emit_error!\([^;]*?,)\s*"((?:[^"\\]|\\.)*)"', txt, re.S):
+                lit = m.group(1).split("{")[0].strip()
+                if len(lit) >= 6:
+                    out.add(lit)
+    _dmsgs["m"] = out
+    return out
+
+
 def _span_from_derive(sp):
     while sp:
         exp = sp.get("expansion")
@@ -75,7 +98,7 @@ def _span_from_derive(sp):
 
 def compile_one(src, cfgs=(), crate_type="lib", externs=None, edition="2021", use_cache=True, extra=()):
     dylib = build_anchor()
-    key = sha(json.dumps(["obj", src, list(cfgs), crate_type, edition, _anchor["hash"], _anchor["rustc"],
+    key = sha(json.dumps(["obj2", src, list(cfgs), crate_type, edition, _anchor["hash"], _anchor["rustc"],
                           sorted((externs or {}).items()), list(extra)]))
     cdir = os.path.join(WORK, "e2cache", key[:2])
     cpath = os.path.join(cdir, key + ".json")
@@ -122,6 +145,8 @@ def compile_one(src, cfgs=(), crate_type="lib", externs=None, edition="2021", us
             for sp in m.get("spans", []):
                 if _span_from_derive(sp):
                     fd = True
+            if not m.get("code") and any(m.get("message", "").startswith(d) for d in derive_messages()):
+                fd = True
     shutil.rmtree(tdir, ignore_errors=True)
     ok = p.returncode == 0
     if not ok and not errors:
